@@ -73,7 +73,9 @@ def constructor(ctx, tk):
                     if later_r:
                         return {"<": ("strictly_increasing", True), "<=": ("non_decreasing", True)}.get(op)
         return None
-    forms = Formulas([m])
+    from ..guards import aggregate_only
+    # a condition made of scalars only (events[-1], len(values)) says nothing about every pair of neighbouring boundaries
+    forms = Formulas([m], irrelevant=aggregate_only)
     check_guard(ctx, "C14.a", f, [fa.cfg.exit], forms, lambda A: A["first_is_zero"] and A["one_more_boundary"] and A["strictly_increasing"],
                 ["first_is_zero", "one_more_boundary", "strictly_increasing"],
                 "a RunLengthArray exists only after refusing unless boundaries start at 0, increase strictly (no empty run) and number one more than the values",
